@@ -186,6 +186,15 @@ func (c WTLengthSliceWrapper) Read(data []byte, ptr unsafe.Pointer, wt plenccore
 	return offset, nil
 }
 
+// overlaps reports whether the n bytes at p share memory with data
+func overlaps(data []byte, p unsafe.Pointer, n uintptr) bool {
+	if len(data) == 0 || n == 0 || p == nil {
+		return false
+	}
+	start := uintptr(unsafe.Pointer(&data[0]))
+	return uintptr(p) < start+uintptr(len(data)) && start < uintptr(p)+n
+}
+
 // entriesPresent counts the length-prefixed entries data holds, up to max,
 // going by the lengths the entries declare
 func entriesPresent(data []byte, max uint64) int {
@@ -347,8 +356,11 @@ func (c WTVarIntSliceWrapper) Read(data []byte, ptr unsafe.Pointer, wt plenccore
 
 	// Now make sure we have enough data in the slice
 	h := (*sliceHeader)(ptr)
-	if h.Cap < count {
-		// Ensure the GC knows the type of this slice.
+	if h.Cap < count || overlaps(data, h.Data, uintptr(h.Cap)*c.EltSize) {
+		// Ensure the GC knows the type of this slice. (A target that holds
+		// the very bytes we are reading - a slice of bytes under another
+		// name, unwrapped in place - is not re-used: that would overwrite the
+		// input.)
 		h.Data = unsafe_NewArray(c.EltType, int(count))
 		h.Cap = int(count)
 	} else {
